@@ -34,6 +34,9 @@ type Frame struct {
 	defers  []deferred
 	callInstr ssa.Instruction // call instruction in THIS frame awaiting a result
 	panicking bool
+	pureEval  bool
+	symGuard  bool
+	depth     int
 }
 
 type deferred struct {
